@@ -63,7 +63,9 @@ theorem step_vm {s s' : State} {e : Event} (h : step? s e = some s') : s'.vm = s
     · simp only [Option.map_eq_some_iff] at h; obtain ⟨k, _, rfl⟩ := h; exact ⟨rfl, rfl⟩
     · simp at h
   · simp only [Option.map_eq_some_iff] at h; obtain ⟨k, _, rfl⟩ := h; exact ⟨rfl, rfl⟩
-  · simp only [Option.map_eq_some_iff] at h; obtain ⟨k, _, rfl⟩ := h; exact ⟨rfl, rfl⟩
+  · split at h
+    · simp only [Option.map_eq_some_iff] at h; obtain ⟨k, _, rfl⟩ := h; exact ⟨rfl, rfl⟩
+    · simp at h
 
 theorem axiom_step_axioms {k k' : Cdcl.State} {c : Clause} (h : Cdcl.step? k (.axiom_ c) = some k') :
     k'.axioms = c :: k.axioms := by
@@ -120,12 +122,15 @@ theorem step_inv {s s' : State} {e : Event} (hs : s.trustTheory = false) (h : st
     simp only [other_step_axioms hk (by intro c; simp)]
     exact hr I hI hroots
   | answer a =>
-    simp only [step?, Option.map_eq_some_iff] at h
-    obtain ⟨k, hk, rfl⟩ := h
-    refine ⟨Cdcl.step_inv hk hc, ?_⟩
-    intro I hI hroots
-    simp only [other_step_axioms hk (by intro c; simp)]
-    exact hr I hI hroots
+    simp only [step?] at h
+    split at h
+    · simp only [Option.map_eq_some_iff] at h
+      obtain ⟨k, hk, rfl⟩ := h
+      refine ⟨Cdcl.step_inv hk hc, ?_⟩
+      intro I hI hroots
+      simp only [other_step_axioms hk (by intro c; simp)]
+      exact hr I hI hroots
+    · simp at h
 
 theorem run_inv : ∀ (evs : List Event) (s s' : State), s.trustTheory = false → run s evs = some s' → Inv s →
     Inv s' ∧ s'.vm = s.vm ∧ s'.trustTheory = false
@@ -152,7 +157,7 @@ theorem unsat_sound (vm : VarMap) (fuel : Nat) (evs : List Event) (A : List Lit)
     ¬ ∃ I : Interp, I.WF ∧ (∀ r ∈ s.roots, evalB I r = true) ∧ (∀ l ∈ A, l.eval (inducedAsg vm I) = true) := by
   rintro ⟨I, hI, hroots, hA⟩
   obtain ⟨⟨hc, hr⟩, hvm, _⟩ := run_inv evs (init vm fuel) s rfl hrun (init_inv vm fuel)
-  simp only [step?, Option.map_eq_some_iff] at hans
+  simp only [step?, answerOk, if_true, Option.map_eq_some_iff] at hans
   obtain ⟨k, hk, _⟩ := hans
   have hvm' : s.vm = vm := hvm
   exact Cdcl.step_unsat_sound hc hk ⟨inducedAsg vm I, hvm' ▸ hr I hI hroots, hA⟩
@@ -177,6 +182,39 @@ theorem learnt_implied (s0 : State) (evs : List Event) (s : State)
         · simp only [Option.map_eq_some_iff] at hs; obtain ⟨k, hk, rfl⟩ := hs; exact Cdcl.step_inv hk h0
         · simp at hs
       · simp only [Option.map_eq_some_iff] at hs; obtain ⟨k, hk, rfl⟩ := hs; exact Cdcl.step_inv hk h0
-      · simp only [Option.map_eq_some_iff] at hs; obtain ⟨k, hk, rfl⟩ := hs; exact Cdcl.step_inv hk h0
+      · split at hs
+        · simp only [Option.map_eq_some_iff] at hs; obtain ⟨k, hk, rfl⟩ := hs; exact Cdcl.step_inv hk h0
+        · simp at hs
+
+/-- the atom values of a model agree with an interpretation -/
+def ModelAgrees (vm : VarMap) (m : List Lit) (I : Interp) : Prop :=
+  ∀ l ∈ m, ∀ t, vm l.var = some t → eval I t = .b (!l.neg)
+
+theorem modelAssign_agrees (vm : VarMap) (m : List Lit) (I : Interp) (h : ModelAgrees vm m I) :
+    (modelAssign vm m).Agrees I := by
+  intro e he
+  simp only [modelAssign, List.mem_filterMap] at he
+  obtain ⟨l, hl, hle⟩ := he
+  cases hv : vm l.var with
+  | none => simp [hv] at hle
+  | some t =>
+    simp only [hv, Option.bind_some] at hle
+    split at hle
+    · simp at hle; subst hle; exact h l hl t hv
+    · simp at hle
+
+/-- **C02 (engine level)**: an accepted `sat` answer comes with a Boolean model such that every
+interpretation agreeing with it on the atoms makes every root formula true — the roots are evaluated from the
+atom values alone, so neither the CNF encoding nor variable elimination is trusted. (That the atom values
+are jointly consistent in the theory is established per run by validating a printed model, see C03.) -/
+theorem sat_sound (s s' : State) (m : List Lit) (hans : step? s (.answer (.sat m)) = some s')
+    (I : Interp) (hag : ModelAgrees s.vm m I) : ∀ r ∈ s.roots, evalB I r = true := by
+  simp only [step?, answerOk] at hans
+  by_cases hok : satOk s m = true
+  · intro r hr
+    simp only [satOk, List.all_eq_true, beq_iff_eq] at hok
+    have := eval3_sound I _ (modelAssign_agrees s.vm m I hag) r true (hok r hr)
+    simp [evalB, this, Val.toBool]
+  · simp [hok] at hans
 
 end Osmt.Smt
